@@ -40,6 +40,16 @@ def U():
     return _U
 
 
+def near_whitespace() -> list[str]:
+    """Invisible / format / control characters that are NOT matched by \\s: a cleaner that removes
+    any of them removes too much."""
+    import unicodedata
+    _, spaces, _ = U()
+    sp = set(spaces)
+    return [chr(c) for c in range(0x110000)
+            if unicodedata.category(chr(c)) in ("Cf", "Cc", "Zs", "Zl", "Zp") and chr(c) not in sp]
+
+
 def wide_alphabet() -> list[str]:
     digits, spaces, to_ascii = U()
     conf = [chr(c) for c in list(range(0xFF10, 0xFF1A)) + list(range(0xFF21, 0xFF3B)) +
